@@ -53,6 +53,14 @@ pub struct Request {
     /// [IntrospectionMode::Enabled]).
     #[serde(skip)]
     pub introspection_mode: IntrospectionMode,
+
+    /// Refuse to execute a mutation operation for this request.
+    ///
+    /// Set for requests decoded from the query string of an HTTP `GET` request, which must
+    /// be safe (GraphQL over HTTP: "GET requests MUST NOT be used for executing mutation
+    /// operations").
+    #[serde(skip)]
+    pub(crate) mutation_disallowed: bool,
 }
 
 impl Request {
@@ -67,6 +75,7 @@ impl Request {
             extensions: Default::default(),
             parsed_query: None,
             introspection_mode: IntrospectionMode::Enabled,
+            mutation_disallowed: false,
         }
     }
 
@@ -103,6 +112,17 @@ impl Request {
     #[must_use]
     pub fn only_introspection(mut self) -> Self {
         self.introspection_mode = IntrospectionMode::IntrospectionOnly;
+        self
+    }
+
+    /// Refuse to execute a mutation operation for this request: if the selected operation is
+    /// a mutation, the request is answered with an error and no resolver runs.
+    ///
+    /// [`parse_query_string`](crate::http::parse_query_string) sets this for every request it
+    /// decodes, because a request received over HTTP `GET` must be safe.
+    #[must_use]
+    pub fn disallow_mutation(mut self) -> Self {
+        self.mutation_disallowed = true;
         self
     }
 
